@@ -25,7 +25,9 @@ class Pair:
         self.cut: set[str] = set()
         self.d_started = False
         self.nfaults = 0
+        self.ncorrupt = 0
         self.put_ok = False
+        self.txn = 0
 
     # ---- model predicates on the real objects ----
     def src_closed(self) -> bool:
@@ -45,9 +47,22 @@ class Pair:
             self.q[link] += pdus
 
     # ---- actions of the model ----
-    def put(self) -> None:
-        e = self.w.call("S", "put", self.w.put_request())
+    def put(self, gap: int = 0) -> None:
+        """The next put request (the first one, then those of cfg['more']) after a pause of gap ms."""
+        from world import MODE
+        over = {}
+        if self.txn >= 1:
+            m = self.w.cfg["more"][self.txn - 1]
+            over = dict(trans_mode=None if m["putMode"] == "none" else MODE[m["putMode"]],
+                        closure_requested=None if m["putClosure"] == "none" else m["putClosure"] == "true")
+            Clock.now += gap
+        e = self.w.call("S", "put", self.w.put_request(**over))
         self.put_ok = e["ret"] == "true"
+        self.txn += 1
+        self.d_started = False
+
+    def more_to_put(self) -> bool:
+        return self.txn < 1 + len(self.w.cfg["more"])
 
     def src_call(self, deliver: bool) -> dict:
         pkt = self.q["ds"].pop(0) if deliver and self.q["ds"] else None
@@ -60,6 +75,7 @@ class Pair:
         e = self.w.call("D", "fsm", pkt, wrej=wrej)
         if wrej:
             self.nfaults += 1
+            self.ncorrupt += 1
         self.send("ds", e["_pdus"])
         if self.w.dst.state.name == "BUSY":
             self.d_started = True
@@ -100,11 +116,10 @@ class Pair:
             q[0], q[1] = q[1], q[0]
             ok = True
         elif kind == "flip" and q and type(q[0]).__name__ == "FileDataPdu" and len(q[0].file_data) > 0:
-            p = copy.deepcopy(q[0])
-            d = bytearray(p.file_data)
+            d = bytearray(q[0].file_data)
             d[0] ^= 1
-            p._params.file_data = bytes(d) if hasattr(p, "_params") else bytes(d)
             q[0] = _with_data(self.w, q[0], bytes(d))
+            self.ncorrupt += 1
             ok = True
         elif kind == "cut":
             self.cut.add(link)
@@ -142,6 +157,8 @@ class Pair:
             self.cancel("S")
         elif a == "cancelD":
             self.cancel("D")
+        elif a == "put":
+            self.put(x)
         else:
             raise ValueError(a)
 
@@ -152,7 +169,11 @@ class Pair:
         turn, calm, idle = "S", 0, 0
         for _ in range(max_turns):
             if self.done():
-                return True
+                if not self.more_to_put():
+                    return True
+                self.put(self.w.cfg["more"][self.txn - 1]["gap"])
+                turn, calm, idle = "S", 0, 0
+                continue
             if self.quiet() and calm >= 2:
                 if idle >= idle_ticks:
                     return False
@@ -182,7 +203,7 @@ class Pair:
                 calm, idle = 0, 0
             else:
                 calm = min(calm + 1, 2)
-        return self.done()
+        return self.done() and not self.more_to_put()
 
 
 def _with_data(w: World, fd, data: bytes):
@@ -198,9 +219,9 @@ def run_hist(cfg: dict, hist: list, tid: int, props: list[str], cont: bool = Tru
         p.put()
         for a, x in hist:
             p.step(a, x)
-        done = p.run_on() if cont else p.done()
+        done = p.run_on() if cont else (p.done() and not p.more_to_put())
         tr = p.w.trace(tid, "pair", sched=[[a, x] for a, x in hist])
-        tr.update(props=props, nfaults=p.nfaults, done=done, cuts=sorted(p.cut))
+        tr.update(props=props, nfaults=p.nfaults, ncorrupt=p.ncorrupt, done=done, cuts=sorted(p.cut))
         return tr
     finally:
         p.w.cleanup()
